@@ -212,6 +212,7 @@ def run_rules(ctx, chk):
     # B4 import
     from . import C03
     sub = type(chk)('C18', LEVEL, chk.tier)
+    sub._nested = True
     C03.run_rules(ctx, sub)
     for o in sub.obs:
         if o['rule'] == 'C03.G1':
